@@ -13,6 +13,8 @@
      removals) run to exhaustion: no break/return/? inside.
  MP7 (K2) after a `split_off` of an account's map every returned value derives from the
      split-off part (nothing extracted is dropped on an early return).
+ MP8 (K3c) run_maintenance treats both containers alike (clean + recost once each, on their own
+     receiver) and re-homes in the right direction (pending -> parked, parked -> pending).
  MP5 (K5) promotion candidates are computed against balances net of the pending transactions'
      costs (`subtract_contained_costs`), in both insertion and maintenance.
 Not decided: nonce-contiguity / affordability invariants over operation sequences, ordering of
@@ -27,6 +29,9 @@ from kinds import (for_loops, loop_leaves_early, rel, comparisons, bool_payload_
 CRATES = ["astria_sequencer.lib"]
 M = "astria_sequencer::mempool::"
 TC = M + "transactions_container::"
+
+
+S_MEMPOOL = "astria_sequencer::mempool::"
 
 
 def is_test_owner(o):
@@ -45,6 +50,7 @@ def run(prog, rep):
     mp1(prog, rep)
     mp6(prog, rep)
     mp7(prog, rep)
+    mp8(prog, rep)
     mp2(prog, rep)
     mp3(prog, rep)
     mp5(prog, rep)
@@ -134,6 +140,48 @@ def mp7(prog, rep):
                       "account's map: the extracted transactions are dropped (neither returned "
                       "for re-homing/reporting nor put back) but stay tracked", c.where())
     rep.floor("MP7", n, 4, "split_off sites in the mempool containers")
+
+
+def mp8(prog, rep):
+    """Sibling agreement of the two per-container stanzas of run_maintenance, and the roles of
+    the containers in the re-homing step: both containers are cleaned and (on a fee change)
+    re-costed - each exactly once, on its own receiver; demotables are taken from *pending* and
+    added to *parked*, promotables from *parked* and added to *pending*; remaining balances are
+    those of *pending*.  A copy-paste slip (`self.parked` twice) leaves one container with stale
+    costs: the ready set is then judged against wrong costs."""
+    b = prog.main_body(S_MEMPOOL + "MempoolInner::run_maintenance")
+    ops = {}
+    for c in b.calls:
+        if c.expn or not c.args:
+            continue
+        r0 = b.root(c.args[0])
+        if r0 in ("self.pending", "self.parked"):
+            ops.setdefault(short_name(c.callee), []).append(r0.split(".")[1])
+    want = {
+        "clean_account_stale_expired": ["parked", "pending"],
+        "recost_transactions": ["parked", "pending"],
+        "find_demotables": ["pending"],
+        "find_promotables": ["parked"],
+        "subtract_contained_costs": ["pending"],
+        "pending_nonce": ["pending"],
+    }
+    for op, recv in want.items():
+        got = sorted(ops.get(op, []))
+        rep.check(got == recv, "MP8", f"run_maintenance:{op}:receivers",
+                  f"run_maintenance calls `{op}` on {got}; expected once on each of {recv} "
+                  "(a container that is skipped keeps stale entries / costs, one that is handled "
+                  "twice hides the slip)", b.describe())
+    # re-homing direction: what was demoted from pending goes to parked and vice versa
+    for c in b.calls:
+        if c.expn or short_name(c.callee) != "add" or not c.args:
+            continue
+        r0, r1 = b.root(c.args[0]), b.root(c.args[1])
+        if r0 == "self.parked":
+            rep.check("find_demotables(self.pending" in r1, "MP8", "demoted->parked",
+                      f"parked.add receives `{r1[:70]}`", c.where())
+        elif r0 == "self.pending":
+            rep.check("find_promotables(self.parked" in r1, "MP8", "promoted->pending",
+                      f"pending.add receives `{r1[:70]}`", c.where())
 
 
 def mp2(prog, rep):
